@@ -23,9 +23,14 @@ def observe(q, case):
         try:
             objs, meas = exprgen.build_impl(q, case)
             r = objs[case["root"]]
+            # what the library holds for each measurement (repeated measurements: mean and the
+            # selected statistic) is what the formula law is about
+            out["vals"] = [bits(float(m.value)) for m in meas]
+            out["errs"] = [bits(float(m.error)) for m in meas]
             out["value"] = float(r.value)
             out["error"] = float(r.error)
-            other = q.Measurement(1.2345, 0.1)
+            # an unrelated measurement that happens to have the same reading as a source
+            other = q.Measurement(float(meas[0].value), 0.1)
             out["derivs"] = [float(r.derivative(m)) for m in meas] + [float(r.derivative(other))]
             out["self"] = float(r.derivative(r))
         except Exception as e:  # noqa: BLE001
@@ -33,10 +38,13 @@ def observe(q, case):
     return out
 
 
-def model_line(case):
+def model_line(case, obs=None):
     n = case["n_meas"]
+    vals, errs = list(case["vals"]), list(case["errs"])
+    if obs and "vals" in obs:
+        vals[:n], errs[:n] = obs["vals"], obs["errs"]
     return {"cmd": "expr", "nodes": exprgen.model_nodes(case["nodes"]), "root": case["root"],
-            "vals": case["vals"], "errs": case["errs"], "rho": case["rho"],
+            "vals": vals, "errs": errs, "rho": case["rho"],
             "wrt": list(range(n)) + [len(case["vals"]) + 7]}
 
 
@@ -76,7 +84,7 @@ def run(ctx, what, n_cases, ref=False, gen_kwargs=None, cases=None):
                 cases.append(c)
     obs = [observe(q, c) for c in cases]
     reset(q)
-    mod = ctx.model([model_line(c) for c in cases], ref=ref)
+    mod = ctx.model([model_line(c, o) for c, o in zip(cases, obs)], ref=ref)
     failures, nontrivial, skipped = [], set(), 0
     dist = collections.Counter()
     samples = []
@@ -86,6 +94,7 @@ def run(ctx, what, n_cases, ref=False, gen_kwargs=None, cases=None):
         dist["meas:{}".format(c["n_meas"])] += 1
         dist["corr" if c["rho"] else "nocorr"] += 1
         dist["pairs" if any(n[0] == "pair" for n in c["nodes"]) else "nopairs"] += 1
+        dist["repeated" if c.get("raw") else "single-only"] += 1
         if "fail" in m:
             failures.append({"signature": "model-error", "kind": "disagreement",
                              "what": "model driver: " + m["fail"], "input": pretty(c)})
